@@ -208,6 +208,47 @@ static Verdict run_c05(const Case &c)
             labels.push_back("A:" + hex(bytes(f.begin() + base.size(), f.end())));
           }
         }
+    // length extension proper: if the stored tag were the plain digest of (secret prefix || authenticated range) -
+    // the inner hash of HMAC without its outer pass, H(key || data) - anyone could continue the hash from the
+    // stored tag without the key: range || glue padding || E with tag' = H continued from the old tag over E.
+    // RFC 2104's outer pass makes that useless; every such file must be rejected.
+    for (size_t prefix : {(size_t)64, (size_t)16, (size_t)0})
+      for (size_t elen : {(size_t)16, (size_t)48, (size_t)5})
+      {
+        size_t range = base.size() - 48;
+        uint64_t msg = prefix + range;
+        bytes glue;
+        glue.push_back(0x80);
+        while ((msg + glue.size()) % 64 != 56)
+          glue.push_back(0);
+        uint64_t bits = msg * 8;
+        for (int i = 0; i < 8; i++)
+          glue.push_back((uint8_t)(e.hmode == 1 ? bits >> (8 * i) : bits >> (56 - 8 * i)));
+        bytes f = base;
+        f.insert(f.end(), glue.begin(), glue.end());
+        // keep the body a whole number of cipher blocks where the extension length allows it
+        size_t want = elen;
+        while (elen != 5 && (f.size() + want - body) % 16 != 0)
+          want++;
+        bytes E;
+        for (size_t i = 0; i < want; i++)
+          E.push_back((uint8_t)(0x61 + i % 23));
+        f.insert(f.end(), E.begin(), E.end());
+        ref::Hash hh(e.hmode);
+        int words = e.hmode == 0 ? 5 : e.hmode == 1 ? 4 : 8;
+        for (int w = 0; w < words; w++)
+        {
+          const uint8_t *t = base.data() + 10 + 4 * w;
+          hh.h[w] = e.hmode == 1 ? ((uint32_t)t[0] | (uint32_t)t[1] << 8 | (uint32_t)t[2] << 16 | (uint32_t)t[3] << 24)
+                                 : ((uint32_t)t[0] << 24 | (uint32_t)t[1] << 16 | (uint32_t)t[2] << 8 | (uint32_t)t[3]);
+        }
+        hh.len = msg + glue.size();
+        hh.update(E.data(), E.size());
+        bytes tag = hh.final();
+        memcpy(f.data() + 10, tag.data(), hl);
+        files.push_back(f);
+        labels.push_back("A:" + hex(bytes(f.begin() + base.size(), f.end())) + ";S:10:" + hex(bytes(tag.begin(), tag.begin() + hl)));
+      }
   }
   else if (kind == "hdr")
   {
